@@ -586,6 +586,23 @@ static void build(vf::Plan &plan, const vf::Opts &o)
         st.case_timeout_s = 30;
     }
 
+    // ---- fold sweep behind a UTF-8 lead byte: case-insensitive means ASCII letters only, whatever the byte before says
+    // (C3 89 and C3 A9 - E-acute and e-acute - are different texts)
+    if (!reduced) {
+        static const unsigned char PREV[4] = {0xC3, 0xC2, 0xE2, 'a'};
+        plan.stage("fold behind a lead byte: all 256x256 (haystack byte, needle byte) behind {C3, C2, E2, 'a'} in haystack and needle", 65536 * 4,
+                   [EXT_LIGHT](uint64_t i, Ctx &c) {
+                       unsigned x = vf::take(i, 256), y = vf::take(i, 256), pv = (unsigned)i;
+                       Hay h = make_hay(std::string("q") + (char)PREV[pv] + (char)x + "z");
+                       Needle n = make_needle(std::string(1, (char)PREV[pv]) + (char)y);
+                       check_case(c, h, n, Cfg{EXT_LIGHT, false});
+                   },
+                   [](uint64_t i) {
+                       unsigned x = vf::take(i, 256), y = vf::take(i, 256);
+                       return strf("haystack 'q'+%02X+%02X+'z' needle %02X+%02X", PREV[i], x, PREV[i], y);
+                   });
+    }
+
     // ---- complete fold sweep
     if (!reduced) {
         plan.stage("fold:all-256x256(haystack byte, needle byte), alone and as second byte ('bQ'+x vs 'q'+y)", 65536 * 2,
